@@ -71,6 +71,18 @@ func runC22(c *Ctx) error {
 			return err
 		}
 		nfacts := 1 + c.Intn(5)
+		// every fiftieth history starts with 360 operations of three facts and three calls: the first call removes more
+		// than 333 entries at once (the older operations of each fact), the next two refuse operations by their own
+		// hash, so that whatever an earlier call should have removed would be next in line
+		var forced []string
+		if hi%50 == 7 {
+			nfacts = 3
+			for j := 0; j < 360; j++ {
+				forced = append(forced, "S")
+			}
+			forced = append(forced, "H:6:0:0:f", "H:6:2:0:o", "H:6:2:1:o", "H:6:3:1:f")
+			c.Count("histories", "with-360-operations-prefix")
+		}
 		facts := make([]isaac.DummyOperationFact, nfacts)
 		for i := range facts {
 			facts[i] = isaac.NewDummyOperationFact(util.UUID().Bytes(), util.BytesToByter(c.Bytes(4)))
@@ -89,16 +101,25 @@ func runC22(c *Ctx) error {
 		var toks, outs []string
 		var pending []opinfo
 		storedIDs := map[int]bool{}
-		nsteps := 3 + c.Intn(14)
+		nsteps := 3 + c.Intn(14) + len(forced)
 		handedOut := map[int]bool{} // ops removed as filtered out / replaced duplicates
 		for st := 0; st < nsteps; st++ {
-			switch k := c.Intn(10); {
+			k := c.Intn(10)
+			var force string
+			if len(forced) > 0 {
+				force, forced = forced[0], forced[1:]
+				k = 0
+				if force != "S" {
+					k = 9
+				}
+			}
+			switch {
 			case k < 6 || len(ops) == 0: // SetOperation (new op, often an already used fact re-signed)
 				fi := c.Intn(nfacts)
 				var oi opinfo
-				if len(ops) > 0 && c.Chance(1, 6) { // resubmit an existing operation
+				if force == "" && len(ops) > 0 && c.Chance(1, 6) { // resubmit an existing operation
 					oi = ops[c.Intn(len(ops))]
-				} else if len(pending) > 0 && c.Chance(1, 2) {
+				} else if force == "" && len(pending) > 0 && c.Chance(1, 2) {
 					// an operation that was signed a while ago arrives only now (after others signed later)
 					oi = pending[0]
 					pending = pending[1:]
@@ -110,7 +131,7 @@ func runC22(c *Ctx) error {
 					oi = opinfo{op: op, id: len(ops) + 1, fact: fi + 1}
 					ops = append(ops, oi)
 					idOf[op.Hash().String()] = oi.id
-					if c.Chance(1, 5) {
+					if force == "" && c.Chance(1, 5) {
 						// signed now, delivered later: another operation (often of the same fact) is signed and added first
 						pending = append(pending, oi)
 						time.Sleep(2 * time.Millisecond)
@@ -139,6 +160,12 @@ func runC22(c *Ctx) error {
 				}
 				var filter func(isaac.PoolOperationRecordMeta) (bool, error)
 				byOp := m > 0 && c.Chance(1, 3) // a filter that decides per operation (as the proposal maker's known-operation check does), not per fact
+				if force != "" {
+					var l uint64
+					var kind string
+					fmt.Sscanf(strings.ReplaceAll(force, ":", " "), "H %d %d %d %s", &l, &m, &r, &kind)
+					limit, byOp = l, kind == "o"
+				}
 				if m > 0 {
 					filter = func(meta isaac.PoolOperationRecordMeta) (bool, error) {
 						if byOp {
